@@ -7,4 +7,5 @@ CONSTANTS
   ItemCap = 8
   ReusePorts = TRUE
   StrictGap = FALSE
+  FwdStamps <- FwdNone
 INVARIANTS SameExchange HalfRTT PrevConsistent NoPanic
